@@ -9,6 +9,12 @@ AllKinds == {"eph.silent", "eph.missing", "eph.selfkey",
              "dup", "spoof", "session"}
 AllFixes == {"F1", "F2", "F3", "F4", "F5", "F6"}
 NoFixes == {}
+NoF1 == AllFixes \ {"F1"}
+NoF2 == AllFixes \ {"F2"}
+NoF3 == AllFixes \ {"F3"}
+NoF4 == AllFixes \ {"F4"}
+NoF5 == AllFixes \ {"F5"}
+NoF6 == AllFixes \ {"F6"}
 
 \* corrupt sets
 Corrupt3 == {{3}}
@@ -16,5 +22,7 @@ Corrupt3any == {{}, {1}, {2}, {3}}
 Corrupt4 == {{4}, {2}}
 Corrupt5 == {{4, 5}}
 Corrupt5b == {{4, 5}, {1, 3}, {5}}
+NoPlan == {<<K, K, K, K, K, K>>}
+AllPlans == {p \in [1..6 -> 0..K] : p[1] + p[2] + p[3] + p[4] + p[5] + p[6] <= K + 2}
 UpToT == {S \in SUBSET Members : Cardinality(S) <= T}
 =============================================================================
